@@ -319,7 +319,8 @@ ParkNth == IF upd.phase \in {"save", "restoring"} THEN upd.nStore ELSE IF upd.ph
 
 UPark ==
     /\ upd.pc = "run" /\ upd.mayPark /\ ParkPoint # ""
-    /\ upd' = [upd EXCEPT !.pc = "parked", !.mayPark = FALSE, !.point = ParkPoint, !.nth = ParkNth]
+    \* (what happened up to here - calls to the proxy, a refusal - is reported with this event; the answer reports the rest)
+    /\ upd' = [upd EXCEPT !.pc = "parked", !.mayPark = FALSE, !.point = ParkPoint, !.nth = ParkNth, !.calls = 0, !.hf = FALSE]
     /\ out' = [ev |-> "begin", u |-> "A", ep |-> upd.ep, method |-> "PUT", arg |-> [NoArg EXCEPT !.payload = upd.pl], parked |-> TRUE,
                point |-> ParkPoint, nth |-> ParkNth, code |-> 0, obs |-> Obs(disk, eng, upd.calls, upd.hf)]
     /\ UNCHANGED <<env, disk, eng, up, dead, lock, sf, fault>>
